@@ -16,9 +16,9 @@ CLAIMED = {
     },
     "C10": {
         "category": "exploration",
-        "text": "Generated mutation/observation histories over lists (initial lengths around the growth capacities), maps and instances through aliases in locals/parameters, module variables, fields, nested list elements, map keys (also of a map with a few hundred entries: equal numbers such as 0 and -0 find the same entry), tuple elements, closure captures, channel buffers, live loop iterators, callee frames, tables collected by natives, copies made by sort/slice/rev/list/collect (fresh objects whatever the receiver's length), map entries kept while the walk goes on, keys that only the map refers to, and parameters of other fibers (mutations and observations also performed by another fiber across context switches); tuples and closures as identity-bearing keys, under seeded GC schedules; every observation must equal a reference heap with immutable identities.",
+        "text": "Generated mutation/observation histories over lists (initial lengths around the growth capacities), maps and instances through aliases in locals/parameters, module variables, fields, nested list elements, map keys (also of a map with a few hundred entries: equal numbers such as 0 and -0 find the same entry), tuple elements, closure captures, channel buffers, live loop iterators, callee frames, tables collected by natives, copies made by sort/slice/rev/list/collect (fresh objects whatever the receiver's length), single calls that make a list outgrow its block several times over (push of 13-40 values) followed by its use as a key and two levels deep, instances of a subclass that re-assigns an inherited field (read and written by name and through base-class methods), map entries kept while the walk goes on, keys that only the map refers to, and parameters of other fibers (mutations and observations also performed by another fiber across context switches); tuples and closures as identity-bearing keys, under seeded GC schedules; every observation must equal a reference heap with immutable identities.",
         "design_ref": "DESIGN.md section 3 C10",
-        "note": "Exempt by construction (pinned known finding C10-forwarded-list-identity): identity observations on a list that has grown past its capacity when a side is read from a non-stack location. All content observations and all other identity observations are enforced.",
+        "note": "Exempt by construction (pinned known finding C10-forwarded-list-identity): identity observations on a list that has moved when a side is a reference stored outside the running fiber's stack before the latest move (or the move was made by another fiber, or the program runs at module level). References stored after the latest move, all locals of the running function, all content observations and all other identity observations are enforced.",
         "technique": "deterministic simulation: alias mutation histories incl. cross-fiber aliases under seeded GC schedules, reference-heap oracle",
     },
     "C17": {
